@@ -24,8 +24,17 @@ def main():
     for f in os.listdir(os.path.join(d, "demo")):
         if f.lower().startswith("readme"):
             readme = open(os.path.join(d, "demo", f)).read()
+    copies = []
+    # "cp a.go b.go <repo>/dir/" or "cp a.go <repo>/dir/a.go"
+    for srcs, dst in re.findall(r"\bcp\s+((?:\S+\.go\s+)+)\s*(?:<repo>/)?((?:x|types)/\S+)", readme):
+        for src in srcs.split():
+            copies.append((src, dst if dst.endswith(".go") else dst.rstrip("/") + "/" + os.path.basename(src)))
+    # "name.go\n   copy to:  path/name.go"
+    for src, dst in re.findall(r"(\S+\.go)\s*\n\s*copy to:\s+(?:<repo>/)?(\S+\.go)", readme):
+        copies.append((src, dst))
     # every "`file` to `path`" pair
-    copies = re.findall(r"`([^`\s]+\.go)`\s+to\s+`([^`\s]+)`", readme)
+    if not copies:
+        copies = re.findall(r"`([^`\s]+\.go)`\s+to\s+`([^`\s]+)`", readme)
     if not copies:  # "a.go -> path/b.go" form
         copies = re.findall(r"(\S+\.go)\s*->\s*(\S+\.go)", readme)
     if not copies:  # same sentence without backticks
